@@ -42,7 +42,12 @@ func Check(before *world.World, ev world.Event, pass *world.Pass, after *world.W
 	}
 	v := osw.View{Before: before.S, Pass: pass}
 	pre := before.S.Objs[osKey]
-	if pre != nil && condTrue(pre.Content, "Archived") {
+	// (judged on what the pass read: a cache that is one write behind may not show it yet)
+	readArchived := pre != nil && condTrue(pre.Content, "Archived")
+	if len(pass.Reqs) > 0 && pass.Reqs[0].Verb == "get" && pass.Reqs[0].Key == osKey && pass.Reqs[0].Resp != nil {
+		readArchived = condTrue(pass.Reqs[0].Resp, "Archived")
+	}
+	if readArchived {
 		// archival completed: not reconciled again
 		for i, r := range pass.Reqs {
 			if i == 0 && r.Verb == "get" && r.Key == osKey {
@@ -260,10 +265,13 @@ type scenario struct {
 	LongLived bool `json:"longLived"`
 	// Unarchives: budget of the user setting the archived ObjectSet back to Active
 	Unarchives int `json:"unarchives"`
+	// StaleOwn: budget of passes whose cached read of the ObjectSet itself is one write behind
+	// (the informer has not delivered the controller's own previous status update yet)
+	StaleOwn int `json:"staleOwn"`
 }
 
 func (sc scenario) name() string {
-	return fmt.Sprintf("%s phases=%d delegated=%03b statuses=%d pauses=%d archive=%v delete=%v restarts=%d conflicts=%d longLived=%v", sc.Kind, sc.N, sc.Mask, len(sc.Classes), sc.Pauses, sc.Archive, sc.Delete, sc.Restarts, sc.Conflicts, sc.LongLived)
+	return fmt.Sprintf("%s phases=%d delegated=%03b statuses=%d pauses=%d archive=%v delete=%v restarts=%d conflicts=%d longLived=%v staleOwn=%d", sc.Kind, sc.N, sc.Mask, len(sc.Classes), sc.Pauses, sc.Archive, sc.Delete, sc.Restarts, sc.Conflicts, sc.LongLived, sc.StaleOwn)
 }
 
 func userEvents(w *world.World, sc scenario, os string) []world.Event {
@@ -335,6 +343,7 @@ func system(sc scenario) *world.System {
 			w.Budget["delete"] = 1
 			w.Budget["restart"] = sc.Restarts
 			w.Budget["conflict"] = sc.Conflicts
+			w.Budget["stale-own"] = sc.StaleOwn
 			return w
 		},
 		Events: func(w *world.World) []world.Event {
@@ -343,6 +352,7 @@ func system(sc scenario) *world.System {
 			evs = append(evs, osw.GCEvent(w)...)
 			evs = append(evs, osw.CrashEvents(w)...)
 			evs = append(evs, osw.ConflictEventsAll(w)...)
+			evs = append(evs, osw.StaleOwnEvents(w)...)
 			if w.Budget["stale"] > 0 {
 				for _, k := range w.S.SortedKeys() {
 					if k.Kind == "ObjectSlice" {
@@ -381,6 +391,7 @@ func scenarios(quick bool) []scenario {
 		{Kind: "single", N: 2, Mask: 0b10, Classes: []string{"ready"}, Pauses: 1, Delete: true, LongLived: true},
 		// stale0: the workload controller reports an explicit observedGeneration 0
 		{Kind: "single", N: 2, Mask: 0b10, Classes: []string{"ready", "stale0"}},
+		{Kind: "single", N: 1, Mask: 0, Classes: two, StaleOwn: 1},
 	}
 	if !quick {
 		out = append(out,
@@ -396,7 +407,7 @@ func scenarios(quick bool) []scenario {
 
 func run(o checks.Opts) *report.Report {
 	rep := report.New("C06", "bfs")
-	rep.Rule = "explicit-state BFS: reconcile(ObjectSets, ObjectSetPhases), workload status changes, user pause/unpause/archive/un-archive/delete, garbage collector, operator crash before request i, a foreign write landing before write i of a pass (update conflict); two systems run all passes of a history in one long-lived operator process; systems: a sliced ObjectSet whose lagging cache may hide a slice from a pass, single ObjectSet (2-3 phases, local/delegated) a two-revision handover chain r1{a,b}->r2{a,c}, and a complete takeover r1{a}->r2{a,c} (r1's archival teardown finishes in its first pass) with crashes; monitor on every status write of the ObjectSet controller"
+	rep.Rule = "explicit-state BFS: reconcile(ObjectSets, ObjectSetPhases), workload status changes, user pause/unpause/archive/un-archive/delete, garbage collector, operator crash before request i, a foreign write landing before write i of a pass (update conflict), (budgeted) a pass whose cached read of the ObjectSet itself is one write behind; two systems run all passes of a history in one long-lived operator process; systems: a sliced ObjectSet whose lagging cache may hide a slice from a pass, single ObjectSet (2-3 phases, local/delegated) a two-revision handover chain r1{a,b}->r2{a,c}, and a complete takeover r1{a}->r2{a,c} (r1's archival teardown finishes in its first pass) with crashes; monitor on every status write of the ObjectSet controller"
 	scs := scenarios(o.Quick())
 	rep.Bounds["systems"] = len(scs)
 	for i, sc := range scs {
@@ -445,9 +456,9 @@ func init() {
 		},
 		Subs: []*checks.Sub{{Name: "bfs", Shards: func(t string) int {
 			if t == "thorough" {
-				return 17
+				return 19
 			}
-			return 12
+			return 14
 		}, Run: run, Replay: replay, Parallel: true},
 			twin.Sub("C06", twinScenarios)},
 	})
